@@ -2182,8 +2182,9 @@ package apd
 //@ define RejNoDigit(s: []byte, k: int, k2: int): bool = Ascii(s) && (forall j in 0..len(s)-1: !IsDigit(s[j])) && !InfText(s, SgnOff(s)) && !(NanHead(s, SgnOff(s)) && len(s) == SgnOff(s) + 3) && !(SnanHead(s, SgnOff(s)) && len(s) == SgnOff(s) + 4)
 //@ define RejNoMant(s: []byte, k: int, k2: int): bool = Ascii(s) && SgnOff(s) <= k && k < len(s) && (s[k] == 69 || s[k] == 101) && (forall j in 0..k-1: !IsDigit(s[j])) && (!IsLetter(s[SgnOff(s)]) || k == SgnOff(s))
 //@ define RejEndSign(s: []byte, k: int, k2: int): bool = Ascii(s) && NumStart(s) && len(s) >= 2 && (s[len(s) - 1] == 43 || s[len(s) - 1] == 45)
-// RejText: the thirteen classes of ASCII texts outside the numeric-string grammar that setString is proved to reject (k, k2: positions of the offending bytes)
-//@ define RejText(s: []byte, k: int, k2: int): bool = RejLetter(s, k, k2) || RejNanTail(s, k, k2) || RejSnanTail(s, k, k2) || RejWord(s, k, k2) || RejTwoPoints(s, k, k2) || RejTwoE(s, k, k2) || RejSignInside(s, k, k2) || RejEmpty(s, k, k2) || RejExpEmpty(s, k, k2) || RejChar(s, k, k2) || RejNoDigit(s, k, k2) || RejNoMant(s, k, k2) || RejEndSign(s, k, k2)
+//@ define RejPointExp(s: []byte, k: int, k2: int): bool = Ascii(s) && NumStart(s) && 0 <= k && k < k2 && k2 < len(s) && (s[k] == 69 || s[k] == 101) && s[k2] == 46
+// RejText: the fourteen classes of ASCII texts outside the numeric-string grammar that setString is proved to reject (k, k2: positions of the offending bytes)
+//@ define RejText(s: []byte, k: int, k2: int): bool = RejLetter(s, k, k2) || RejNanTail(s, k, k2) || RejSnanTail(s, k, k2) || RejWord(s, k, k2) || RejTwoPoints(s, k, k2) || RejTwoE(s, k, k2) || RejSignInside(s, k, k2) || RejEmpty(s, k, k2) || RejExpEmpty(s, k, k2) || RejChar(s, k, k2) || RejNoDigit(s, k, k2) || RejNoMant(s, k, k2) || RejEndSign(s, k, k2) || RejPointExp(s, k, k2)
 //@ define GramFrac(z: int, C: int, dot: bool, a: int): int = ite(dot, z + nd10(C) - a, 0)
 //@ define GramExp(z: int, C: int, dot: bool, a: int, hase: bool, esg: int, X: int): int = ite(hase, ite(esg == 45, -X, X), 0) - GramFrac(z, C, dot, a)
 // FinText: s is the text the formatter writes for the finite decimal (neg, C, E): plain notation (exponent <= 0) or scientific
@@ -2240,6 +2241,7 @@ package apd
 //@   ensures {C14} [rej_no_digit] RejNoDigit(bytes(s), gk, gk2) ==> ret1 != nil
 //@   ensures {C14} [rej_no_mant] RejNoMant(bytes(s), gk, gk2) ==> ret1 != nil
 //@   ensures {C14} [rej_end_sign] RejEndSign(bytes(s), gk, gk2) ==> ret1 != nil
+//@   ensures {C14} [rej_point_exp] RejPointExp(bytes(s), gk, gk2) ==> ret1 != nil
 //@   ensures {C14} [rej_char] RejChar(bytes(s), gk, gk2) ==> ret1 != nil
 //@   ensures {C14} [gr_inf] SgnText(bytes(s), gneg, gplus) && InfText(bytes(s), ite(gneg || gplus, 1, 0)) ==> ret1 == nil && ret0 == 0 && d.Form == Infinite && d.Negative == gneg && val(d.Coeff) == 0 && d.Exponent == 0
 //@   ensures {C14} [gr_nan] SgnText(bytes(s), gneg, gplus) && NanText(bytes(s), ite(gneg || gplus, 1, 0), gdot, gz, gC) && gC < 18446744073709551616 ==> ret1 == nil && ret0 == 0 && d.Form == NaN && d.Negative == gneg && val(d.Coeff) == 0 && d.Exponent == 0
